@@ -377,3 +377,34 @@ pub(crate) fn group(bad: Vec<(String, String)>) -> BTreeMap<String, Vec<String>>
     }
     m
 }
+
+/// At quiescence (nothing in flight, every request the client sent was answered by an honest
+/// peer) no connected peer may still have a request on record: such a request can only end in the
+/// message timeout, i.e. in the disconnection of a peer that answered everything.
+pub(crate) fn outstanding_requests(sim: &crate::verif::driver::Sim) -> Vec<(String, String)> {
+    let mut bad = vec![];
+    for p in &sim.world.peers {
+        if !p.connected {
+            continue;
+        }
+        if let Some(peer) = sim.c().peers.get_peer(&ckb_network::PeerIndex::new(p.id)) {
+            let mut kinds = vec![];
+            if peer.get_blocks_request().is_some() {
+                kinds.push("GetBlocks");
+            }
+            if peer.get_blocks_proof_request().is_some() {
+                kinds.push("GetBlocksProof");
+            }
+            if peer.get_txs_proof_request().is_some() {
+                kinds.push("GetTransactionsProof");
+            }
+            for k in kinds {
+                bad.push((
+                    format!("answered-request-still-outstanding/{}", k),
+                    format!("peer {} answered everything and nothing is in flight, but its {} request is still on record (it will be disconnected by the message timeout)", p.id, k),
+                ));
+            }
+        }
+    }
+    bad
+}
